@@ -602,12 +602,48 @@ def r07_10(ctx, g):
 
 
 def r07_11(ctx, g):
-    """A link read without optional fields is stored with a one-element placeholder ([0]) as its tag list; the writer
-    must still write that link (with no tags): on every path of the per-neighbour loop on which the placeholder is
-    recognised (tags[0] == 0) an L line is emitted."""
+    """A link read without optional fields must still be written.  The value the reader hands to add_edge for such a link
+    (T0: the one-element placeholder `[0]`, or the empty list), whether add_edge stores it, and what the writer then finds
+    are followed through the three functions; on every path of the writer's per-neighbour loop that is consistent with
+    that value (and a neighbour inside the node set) an L line must be emitted — with the placeholder cleared only after
+    the decision to write."""
     from ..paths import canon_test
 
-    wf = g.write_gfa
+    wf, rg, ae = g.write_gfa, g.read_graph, g.add_edge
+    # T0: what the reader passes for a link without tags
+    call = [c for c in walk_own(rg.node) if isinstance(c, ast.Call) and isinstance(c.func, ast.Attribute) and c.func.attr == "add_edge"]
+    if len(call) != 1 or not call[0].args:
+        raise AnalysisError("R07.11", rg.where(), "cannot find the reader's add_edge call")
+    targ = call[0].args[-1]
+    t0 = "[]"
+    if isinstance(targ, ast.BoolOp) and isinstance(targ.op, ast.Or) and norm(targ.values[-1]) == "[0]":
+        t0 = "[0]"
+    elif isinstance(targ, ast.Name):
+        for st in walk_own(rg.node):
+            if isinstance(st, ast.Assign) and norm(st.targets[0]) == targ.id and norm(st.value) == "[0]":
+                gds = [canon_test(t, pol) for t, pol in guards_of(rg.node, st)]
+                if (targ.id, False) in gds or (f"len({targ.id}) == 0", True) in gds:
+                    t0 = "[0]"
+    # does add_edge store T0?
+    stores = [st for st in walk_own(ae.node) if isinstance(st, ast.Assign) and isinstance(st.targets[0], ast.Subscript) and norm(st.targets[0].value).endswith("edge_tags")]
+    if len(stores) != 1:
+        raise AnalysisError("R07.11", ae.where(), "cannot find where add_edge stores the link's tags")
+    tparam = norm(stores[0].value)
+    stored = True
+    for t, pol in guards_of(ae.node, stores[0]):
+        ct, cp = canon_test(t, pol)
+        if ct == tparam:
+            v = t0 == "[0]"
+        elif ct == f"{tparam} is None":
+            v = False
+        elif ct == f"len({tparam}) == 0":
+            v = t0 == "[]"
+        elif ct in (f"len({tparam}) > 0", f"len({tparam}) != 0"):
+            v = t0 == "[0]"
+        else:
+            continue
+        if v != cp:
+            stored = False
     loops = [l for l in walk_own(wf.node) if isinstance(l, ast.For) and norm(l.iter).endswith((".start", ".end"))]
     ctx.require_count("R07.11", len(loops), 2, wf.where(), "per-neighbour loops of the writer (start side, end side)")
 
@@ -618,23 +654,51 @@ def r07_11(ctx, g):
             return [x for v in t.values for x in conjuncts(v, False)]
         return [canon_test(t, pol)]
 
-    n_ph = 0
+    n_cons = 0
     for lp in loops:
         tv = None
+        look = None
         for st in walk_stmts(lp.body):
             if isinstance(st, ast.Assign) and isinstance(st.value, ast.Subscript) and norm(st.value.value).endswith("edge_tags") and isinstance(st.targets[0], ast.Name):
-                tv = st.targets[0].id
+                tv, look = st.targets[0].id, st
         if tv is None:
             raise AnalysisError("R07.11", wf.where(lp), "cannot find the tag lookup of the neighbour loop")
+        nb = norm(lp.target)
         paths = enum_paths(lp.body, rule="R07.11", where=wf.where(lp))
         bad = None
         for p in paths:
-            cj = [c for e in p.events if e.kind == "test" for c in conjuncts(e.node, e.pol)]
-            placeholder = (f"{tv}[0] == 0", True) in cj
-            emitted = any(e.kind == "stmt" and isinstance(e.node, ast.Expr) and isinstance(e.node.value, ast.Call) and isinstance(e.node.value.func, ast.Attribute) and e.node.value.func.attr in ("append", "write") for e in p.events)
-            if placeholder:
-                n_ph += 1
-                if not emitted:
-                    bad = p
-        ctx.check(bad is None, "R07.11", wf.where(lp), "a link stored with the no-tags placeholder is still written (the placeholder is cleared only after the decision to write the link)", key_of(wf, f"placeholder-link-written:{norm(lp.iter)[-6:]}"), **({"path": bad.show()} if bad else {}))
-    ctx.require_count("R07.11", n_ph, 2, wf.where(), "paths that recognise the no-tags placeholder")
+            # the value of the tag variable along the path: from the lookup (stored world) or from the KeyError handler
+            val = None
+            consistent = True
+            emitted = False
+            for e in p.events:
+                if e.kind == "exc" and e.node is look:
+                    if stored:
+                        consistent = False
+                    val = None
+                elif e.kind == "stmt" and e.node is look and not any(x.kind == "exc" and x.node is look for x in p.events):
+                    if not stored:
+                        consistent = False
+                    val = t0
+                elif e.kind == "stmt" and isinstance(e.node, ast.Assign) and norm(e.node.targets[0]) == tv and e.node is not look:
+                    val = norm(e.node.value) if norm(e.node.value) in ("[]", "[0]") else "?"
+                elif e.kind == "test":
+                    for ct, cp in conjuncts(e.node, e.pol):
+                        if ct == f"{nb}[0] in set_of_nodes" or (" in " in ct and ct.startswith(f"{nb}[0] in ")):
+                            if not cp:
+                                consistent = False
+                        elif ct == tv and val in ("[]", "[0]"):
+                            if (val == "[0]") != cp:
+                                consistent = False
+                        elif ct == f"{tv}[0] == 0" and val in ("[]", "[0]"):
+                            if val == "[]" or not cp:
+                                consistent = False  # indexing an empty list does not happen on a feasible path
+                elif e.kind == "stmt" and isinstance(e.node, ast.Expr) and isinstance(e.node.value, ast.Call) and isinstance(e.node.value.func, ast.Attribute) and e.node.value.func.attr in ("append", "write"):
+                    emitted = True
+            if not consistent:
+                continue
+            n_cons += 1
+            if not emitted and p.term in ("fall", "continue"):
+                bad = p
+        ctx.check(bad is None, "R07.11", wf.where(lp), f"a link read without optional fields (handed to add_edge as {t0}, {'stored' if stored else 'not stored'} by it) is still written: every consistent path of the writer's neighbour loop emits its L line", key_of(wf, f"tagless-link-written:{norm(lp.iter)[-6:]}:{t0}:{stored}"), **({"path": bad.show()} if bad else {}))
+    ctx.require_count("R07.11", n_cons, 2, wf.where(), "writer paths consistent with a link that has no optional fields")
